@@ -463,7 +463,7 @@ fn known_findings(prop: &str) -> Vec<(String, String)> {
                 continue;
             }
             let key = line.split_whitespace().find_map(|t| t.strip_prefix("key=")).unwrap_or("").to_string();
-            let what = line.split("::").nth(1).unwrap_or("").trim().to_string();
+            let what = line.splitn(2, " :: ").nth(1).unwrap_or("").trim().to_string();
             v.push((key, what));
         }
     }
@@ -481,7 +481,13 @@ pub fn run_property(prop: &str, tier: &str, seed: u64, outdir: &str, driver: &st
     };
     std::fs::create_dir_all(outdir).unwrap();
     let mut rng = Rng::new(seed ^ 0x5EED);
-    let cases = (def.generate)(tier, &mut rng);
+    let mut cases = load_corpus(prop);
+    let ncorpus = cases.len();
+    for mut c in (def.generate)(tier, &mut rng) {
+        c.spec.id += ncorpus;
+        c.group += ncorpus + 1_000_000;
+        cases.push(c);
+    }
     let n = cases.len();
     let ncpu = std::thread::available_parallelism().map(|x| x.get()).unwrap_or(4);
     let specs: Vec<Spec> = cases.iter().map(|c| c.spec.clone()).collect();
@@ -702,6 +708,37 @@ pub fn run_property(prop: &str, tier: &str, seed: u64, outdir: &str, driver: &st
         println!("{}", l);
     }
     exit
+}
+
+/// corpus/<prop>.txt: one case per line: `<key> <model_route|-> <spec line as sent to workers>`;
+/// lines starting with '#' are comments.  Run before the generated cases on every run.
+pub fn load_corpus(prop: &str) -> Vec<Case> {
+    let root = std::env::var("VERIF_ROOT").unwrap_or_else(|_| "/verif".into());
+    let mut v = Vec::new();
+    if let Ok(t) = std::fs::read_to_string(format!("{}/corpus/{}.txt", root, prop)) {
+        for line in t.lines() {
+            let line = line.trim();
+            if line.is_empty() || line.starts_with('#') {
+                continue;
+            }
+            let mut it = line.splitn(3, ' ');
+            let key = it.next().unwrap_or("-").to_string();
+            let mr = it.next().unwrap_or("-");
+            let rest = it.next().unwrap_or("");
+            let mut spec = line_to_spec(rest);
+            spec.id = v.len();
+            spec.want_dom = true;
+            let id = v.len();
+            v.push(Case {
+                spec,
+                group: id,
+                model_route: mr.parse().ok(),
+                meta: Meta::G { role: "corpus", strs: vec![key], nums: vec![] },
+                slice: "corpus",
+            });
+        }
+    }
+    v
 }
 
 pub fn replay(_file: &str, _driver: &str) -> i32 {
